@@ -71,7 +71,7 @@ func (d *Device) handleKEYEvent(ie *input.InputEvent) {
 		// workaround for the case where keyboard mapping has ben changed while some key related to midi note
 		// is still active and new mapping doesn't point to any note, therefore noteOk was evaluated to false
 		if ie.Event.Value == EV_KEY_RELEASE {
-			_, ok := d.noteTracker[ie.Event.Code]
+			_, ok := d.noteTracker[trackedKey{ie.Source.Name, ie.Event.Code}]
 			if ok {
 				d.NoteOff(ie)
 				break
@@ -98,8 +98,8 @@ func (d *Device) handleABSEvent(ie *input.InputEvent) {
 	if len(d.analogNoteTracker) > 0 && (!analogOk || analog.MappingType != config.AnalogKeySim) {
 		// workaround for the case where mapping has been changed while this axis was emulating a held key
 		// and the new mapping does not emulate keys with it, otherwise the note would never be released
-		d.AnalogNoteOff(fmt.Sprintf("%d", ie.Event.Code), ie)
-		d.AnalogNoteOff(fmt.Sprintf("%d_neg", ie.Event.Code), ie)
+		d.AnalogNoteOff(fmt.Sprintf("%s/%d", ie.Source.Name, ie.Event.Code), ie)
+		d.AnalogNoteOff(fmt.Sprintf("%s/%d_neg", ie.Source.Name, ie.Event.Code), ie)
 	}
 
 	if !analogOk {
@@ -252,8 +252,8 @@ func (d *Device) handleABSEvent(ie *input.InputEvent) {
 			value = value*2 - 1.0
 		}
 
-		identifier := fmt.Sprintf("%d", ie.Event.Code)
-		identifierNeg := fmt.Sprintf("%d_neg", ie.Event.Code)
+		identifier := fmt.Sprintf("%s/%d", ie.Source.Name, ie.Event.Code)
+		identifierNeg := fmt.Sprintf("%s/%d_neg", ie.Source.Name, ie.Event.Code)
 
 		switch {
 		case value <= -0.5:
@@ -353,16 +353,16 @@ func (d *Device) ProcessEvents(inputEvents <-chan *input.InputEvent) {
 
 	// LED feedback goroutine may still be in the middle of its last refresh
 	d.eventProcessMutex.Lock()
-	for evcode := range d.noteTracker {
+	for key := range d.noteTracker {
 		d.NoteOff(&input.InputEvent{
 			Source: input.Handler{
-				Name:       "",
+				Name:       key.handler,
 				DeviceInfo: input.DeviceInfo{Name: "shutdown cleanup"},
 			},
 			Event: evdev.InputEvent{
 				Time:  syscall.Timeval{},
 				Type:  evdev.EV_KEY,
-				Code:  evcode,
+				Code:  key.code,
 				Value: 0,
 			},
 		})
